@@ -84,7 +84,7 @@ def e2e(W, p):
     per = W.idx(W.int("period", 1, 2))
     za, zb = W.real("za", 0, 99), W.real("zb", 0, 99)
     rows = [(0, W.frac(11, 4), 3, za), (r1, W.frac(13, 5), W.frac(5, 2), zb)]
-    if p["cont"]:
+    if p["cont"] and p.get("onerow"):
         rows = rows[:1]
     _forcing_files(W, tmp / "R", S, True)
     _forcing_files(W, tmp / "F", S, False)
